@@ -219,7 +219,12 @@ func (r *checkRun) prepare() error {
 		os.MkdirAll(filepath.Join(verifRoot, "out"), 0o755)
 		os.WriteFile(filepath.Join(verifRoot, "out", r.prop.ID+"_generated.go"), content, 0o644)
 	}
-	// replay test drivers
+	return r.buildReplayDrivers()
+}
+
+// buildReplayDrivers (re)generates the native test driver of every package from the harness
+// entries currently in r.files.
+func (r *checkRun) buildReplayDrivers() error {
 	byPkg := map[string][]string{}
 	for _, hf := range r.files {
 		byPkg[hf.pkgDir] = append(byPkg[hf.pkgDir], hf.entries...)
@@ -274,6 +279,58 @@ func (r *checkRun) cleanup() {
 	}
 }
 
+// dropBrokenHarnesses removes the harness files named in the type errors of err (if every error is
+// in a harness file of this property) and records them as engine failures.
+func (r *checkRun) dropBrokenHarnesses(err error) bool {
+	prefix := "zz_verif_" + strings.ToLower(r.prop.ID) + "_"
+	bad := map[string]bool{}
+	for _, line := range strings.Split(err.Error(), "\n")[1:] {
+		line = strings.TrimSpace(line)
+		if line == "" || strings.HasPrefix(line, "have ") || strings.HasPrefix(line, "want ") {
+			continue
+		}
+		j := strings.Index(line, prefix)
+		if j < 0 {
+			return false // an error outside the harness files: nothing can run
+		}
+		name := line[j+len(prefix):]
+		if k := strings.Index(name, ".go"); k >= 0 {
+			name = name[:k+3]
+		}
+		bad[name] = true
+	}
+	if len(bad) == 0 {
+		return false
+	}
+	var kept []*harnessFile
+	dropped := 0
+	for _, hf := range r.files {
+		base := filepath.Base(hf.src)
+		if hf.src != "generated" && bad[base] {
+			virt := filepath.Join(repoRoot, hf.pkgDir, prefix+base)
+			delete(r.overlay, virt)
+			delete(r.native, virt)
+			r.engineFail = append(r.engineFail, fmt.Sprintf("harness file %s does not compile against the current tree and was left out: %s", base, firstLines(err.Error(), 4)))
+			dropped++
+			continue
+		}
+		kept = append(kept, hf)
+	}
+	if dropped == 0 || len(kept) == 0 {
+		return false
+	}
+	r.files = kept
+	return r.buildReplayDrivers() == nil
+}
+
+func firstLines(s string, n int) string {
+	parts := strings.Split(s, "\n")
+	if len(parts) > n {
+		parts = parts[:n]
+	}
+	return strings.Join(parts, " | ")
+}
+
 func (r *checkRun) loadProgram() (*ssa.Program, map[string]*ssa.Package, error) {
 	t0 := time.Now()
 	cfg := &packages.Config{
@@ -322,6 +379,12 @@ func (r *checkRun) run() int {
 		fatal(err)
 	}
 	prog, spkgs, err := r.loadProgram()
+	if err != nil && r.dropBrokenHarnesses(err) {
+		// a harness file no longer compiles against the current tree (e.g. an internal signature
+		// changed): the others still run; the property stays inconclusive unless one of them
+		// reports a violation
+		prog, spkgs, err = r.loadProgram()
+	}
 	if err != nil {
 		fmt.Fprintln(os.Stderr, "gosym:", err)
 		return 2
